@@ -186,6 +186,31 @@ pub fn sweep(cfg: &Cfg, h: &Handles, tag: &str, f: &(dyn Fn(Triple, &mut Stats, 
     });
     total = total.merge(s);
     total.subspace("seeded sample of full (language, script, region) triples over the extended universe (proptest)", n6, false);
+    // contended calls (G31): all worker threads ask about the same two dozen identifiers of
+    // different languages, in a scrambled order, at the same time. The library documents no
+    // shared state; a process-wide memo or "last row" cache that is updated in two steps is only
+    // wrong while another thread sits between the steps.
+    let mut hot: Vec<Triple> = vec![];
+    {
+        // sorted keys: HashMap iteration order must not leak into the run
+        let mut lo: Vec<u16> = h.lk.lang_only.keys().cloned().collect();
+        lo.sort();
+        let mut lr: Vec<(u16, u16)> = h.lk.lang_region.keys().cloned().collect();
+        lr.sort();
+        let mut ls: Vec<(u16, u16)> = h.lk.lang_script.keys().cloned().collect();
+        ls.sort();
+        hot.extend(lo.iter().step_by((lo.len() / 8).max(1)).take(8).map(|l| Triple { l: *l, s: 0, r: 0 }));
+        hot.extend(lr.iter().step_by((lr.len() / 6).max(1)).take(6).map(|k| Triple { l: k.0, s: 0, r: k.1 }));
+        hot.extend(ls.iter().step_by((ls.len() / 6).max(1)).take(6).map(|k| Triple { l: k.0, s: k.1, r: 0 }));
+        hot.extend(lo.iter().rev().take(4).map(|l| Triple { l: *l, s: 0, r: (nr - 1).max(1) as u16 }));
+    }
+    if !hot.is_empty() {
+        let n7 = cfg.pick(3_000_000u64, 30_000_000u64);
+        let k = hot.len() as u64;
+        let s = par_range(n7, |i, st| f(hot[(mix(i ^ 0x5bd1e995) % k) as usize], st, Count::No));
+        total = total.merge(s);
+        total.subspace(&format!("contended calls: {k} identifiers of different languages asked by all threads at once, scrambled order"), n7, false);
+    }
     total.extra.insert("triple_universe".into(), serde_json::json!({"core": [nl, ns, nr], "extended": [xl, xs, xr]}));
     total
 }
